@@ -14,9 +14,9 @@ list of `read` / `write tokens` steps and a return value.  A handler ignores the
 reads (the worst case: a handler that returns the error ends the session anyway).
 
 Not modelled (assumptions of the theorems, listed in meta/C07.json and meta/C08.json): the
-WebSocket framing flag (`ws = false`), pending correlated requests (the `sentStanzas` table is
-empty, so result/error IQs fall through to the handler), write errors of the connection,
-handler writes that are not sequences of whole elements accepted by `encoding/xml`'s encoder.
+WebSocket framing flag (`ws = false`).  Modelled in separate entry points further down: pending
+correlated requests (`serveP`), a closed / broken output and the close deadline (`serveC`), a
+connection that refuses writes (`serveW`).
 -/
 namespace XmppModel.Serve
 open XmppModel.Xml
@@ -41,6 +41,7 @@ inductive Err
   | outputClosed                  -- a write was attempted after the local side closed its output
   | outputBroken                  -- a write was attempted after an earlier one left an element open
   | deadline                      -- the close deadline has passed
+  | writeFault                    -- the connection refused a write
   deriving DecidableEq, Repr, Inhabited
 
 def Err.name : Err → String
@@ -49,6 +50,7 @@ def Err.name : Err → String
   | .procInst => "procinst" | .comment => "comment" | .directive => "directive"
   | .decoder => "decoder" | .badState => "bad-state" | .handler => "handler" | .badJid => "bad-jid"
   | .outputClosed => "output-closed" | .outputBroken => "output-broken" | .deadline => "deadline"
+  | .writeFault => "write-fault"
 
 /-- condition of the stream error `sendError` writes before closing -/
 def Err.cond : Err → String
@@ -246,6 +248,11 @@ structure Prog where
   close : Bool := false
   /-- the handler first calls `SetCloseDeadline`: 0 = no, 1 = a time in the future, 2 = in the past -/
   dl : Nat := 0
+  /-- the handler first edits the `*xml.StartElement` it was handed in place (it is a pointer to
+  the serve loop's own variable): which edit (type / name / id / attributes …, see
+  harness/c08/proto.go `mutate`); 0 = none.  Nothing in the model reads this field: what the
+  session does with an element is decided by what the *peer sent* -/
+  edit : Nat := 0
   deriving Repr, Inhabited
 
 def Prog.nop : Prog := { ops := [], ret := .ok }
@@ -664,9 +671,41 @@ def serveFC (cfg : Cfg) : Nat → OutSt → Bool → RS → List Prog → Out
 def serveC (cfg : Cfg) (closed : Bool) (inp : List Tok) (progs : List Prog) : Out :=
   serveFC cfg (inp.length + 1) (if closed then .closed else .opn) false (RS.init inp) progs
 
+/-! ### a connection that refuses writes
+
+The encoder is buffered: what a handler (or the automatic reply) wrote reaches the connection in
+one `Write` when `handleInputStream` flushes, and the closing tag is one more `Write`.  `left` =
+number of writes the connection still accepts.  A refused flush ends the session with the write
+error (the reply was lost: the stream is terminated, nothing after it is served); nothing that
+was in the buffer reaches the peer.  Once a write was refused the encoder stays failed, so it
+makes no difference whether the connection refuses one write or all later ones. -/
+
+def serveFW (cfg : Cfg) : Nat → Nat → RS → List Prog → Out
+  | 0, _, _, _ => { invs := [], written := [], result := .error .decoder }
+  | fuel + 1, left, rs, progs =>
+    match handleInputStream cfg rs (progs.headD Prog.nop) with
+    | .stop inv w res =>
+      if !w.isEmpty && left == 0 then { invs := inv.toList, written := [], result := .error .writeFault }
+      else
+        let left' := if w.isEmpty then left else left - 1
+        -- the closing tag (after the stream error, which stays in the buffer) is a write too
+        { invs := inv.toList, written := w, result := if left' == 0 then .error .writeFault else res }
+    | .next inv w rs' =>
+      if w.isEmpty then
+        let o := serveFW cfg fuel left rs' (if inv.isSome then progs.tail else progs)
+        { invs := inv.toList ++ o.invs, written := o.written, result := o.result }
+      else if left == 0 then { invs := inv.toList, written := [], result := .error .writeFault }
+      else
+        let o := serveFW cfg fuel (left - 1) rs' (if inv.isSome then progs.tail else progs)
+        { invs := inv.toList ++ o.invs, written := w ++ o.written, result := o.result }
+
+def serveW (cfg : Cfg) (left : Nat) (inp : List Tok) (progs : List Prog) : Out :=
+  serveFW cfg (inp.length + 1) left (RS.init inp) progs
+
 /-! ### tokens of the regenerated verdict table (`Generated/C08.lean`) -/
 
 def nsStreams : String := "urn:ietf:params:xml:ns:xmpp-streams"
+def nsFraming : String := "urn:ietf:params:xml:ns:xmpp-framing"
 
 /-- the token (and what follows it) a kind name of the fact table stands for -/
 def factTok : String → Option (Tok × List Tok)
@@ -684,6 +723,9 @@ def factTok : String → Option (Tok × List Tok)
   | "stream-other" => some (.start ⟨nsStream, "features"⟩ [], [.stop ⟨nsStream, "features"⟩])
   | "plain" => some (.start ⟨"urn:e", "e"⟩ [], [.stop ⟨"urn:e", "e"⟩])
   | "close" => some (.stop ⟨nsStream, "stream"⟩, [])
+  -- elements of the WebSocket framing namespace are ordinary content on a TCP stream (ws = false)
+  | "framing-open" => some (.start ⟨nsFraming, "open"⟩ [], [.stop ⟨nsFraming, "open"⟩])
+  | "framing-close" => some (.start ⟨nsFraming, "close"⟩ [], [.stop ⟨nsFraming, "close"⟩])
   | _ => none
 
 def Rd.name : Rd → String
@@ -694,6 +736,34 @@ def Rd.name : Rd → String
 /-- the model's verdict for a kind of the fact table at a depth -/
 def factVerdict (kind : String) (depth : Nat) : Option String :=
   (factTok kind).map fun p => (verdict depth p.1 p.2).2.name
+
+/-! ### shapes of the detector probe (`Generated/C07.lean`, harness/c07 `ProbeToks`) -/
+
+def probeId : String := "pq"
+
+def probeName : Nat → Name
+  | 0 => ⟨"", "iq"⟩ | 1 => ⟨nsClient, "iq"⟩ | 2 => ⟨nsServer, "iq"⟩ | 3 => ⟨"urn:other", "iq"⟩
+  | _ => ⟨"", "message"⟩
+
+def probeAttrs (idC typC : Nat) : List Attr :=
+  (match typC with
+   | 0 => [attr "type" "result"] | 1 => [attr "type" "error"] | 2 => [attr "type" "get"]
+   | 3 => [attr "type" "set"] | 4 => [] | _ => [attr "type" "foo"]) ++
+  (match idC with
+   | 0 => [attr "id" probeId] | 1 => [attr "id" ("other-" ++ probeId)] | _ => [])
+
+def wrapProbe : Nat → List Tok → List Tok
+  | 0, ts => ts
+  | l + 1, ts => wrapProbe l ([.start ⟨"urn:w", "w" ++ toString l⟩ []] ++ ts ++ [.stop ⟨"urn:w", "w" ++ toString l⟩])
+
+/-- the tokens of one probe shape: an element (name class, id class, type class) wrapped in
+`level` other elements -/
+def probeToks (level nameC idC typC : Nat) : List Tok :=
+  wrapProbe level [.start (probeName nameC) (probeAttrs idC typC), .stop (probeName nameC)]
+
+/-- the model's verdict for a probe shape: does the detector's flag end up set -/
+def probeVerdict (level nameC idC typC : Nat) : Bool :=
+  (WS.init.encAll probeId (probeToks level nameC idC typC)).wrote
 
 /-! ### what the peer sees: top-level elements written -/
 
